@@ -16,11 +16,11 @@ PLAN = {
                         "names are drawn from a 3-letter alphabet, depth 0..6 (plus /zz probes); faces 1..5; costs 0..3 and 2^64-1"],
     },
     "C06": {
-        "parts": [{"engine": "tablesim", "quick": 100000, "thorough": 6000000}],
-        "nontrivial": ">=2 nested prefixes held routes at some step and >=1 unregistration or face teardown removed a route",
-        "fault_note": "fault kind = face teardown (RIB clean-up as face.Table.Remove performs it) injected at arbitrary points of the registration history",
-        "components": {"real": REAL_TABLES, "stub": ["face table (teardown is represented by the RIB clean-up call it makes)"]},
-        "assumptions": ["routes are identified by (prefix, face, origin) as in the management protocol", "expiration periods are not simulated (the forwarder does not act on them)"],
+        "parts": [{"engine": "tablesim", "quick": 100000, "thorough": 6000000}, {"engine": "mgmtsim", "quick": 8000, "thorough": 400000, "quick_wall": 45}],
+        "nontrivial": "(table part) >=2 nested prefixes held routes at some step and >=1 unregistration or face teardown removed a route; (management part) >=1 command accepted and >=1 refused",
+        "fault_note": "fault kind = face teardown (RIB clean-up as face.Table.Remove performs it) injected at arbitrary points of the registration history; management part: the same histories issued as rib/register, rib/unregister and faces/destroy commands to the running management thread of a whole forwarder",
+        "components": {"real": REAL_TABLES + ["(management part) fw/mgmt management thread and RIB module, internal face, forwarding threads, real face table"], "stub": ["(table part) face table (teardown is represented by the RIB clean-up call it makes)", "(management part) application faces (simulated transports)"]},
+        "assumptions": ["routes are identified by (prefix, face, origin) as in the management protocol", "expiration periods are stored and listed but the forwarder does not act on them"],
     },
     "C08": {
         "parts": [{"engine": "fwsim", "quick": 40000, "thorough": 3000000}, {"engine": "tablesim", "quick": 30000, "thorough": 3000000}],
@@ -138,7 +138,7 @@ ENGINES = [
     {"name": "svsim", "path": "sim/svsim", "serves_properties": ["C04"], "kind_free_text": "2-4 real State Vector Sync instances on real engines in one synctest bubble, joined by a multicast link that drops, duplicates and corrupts Sync Interests"},
     {"name": "objsim", "path": "sim/objsim", "serves_properties": ["C15"], "kind_free_text": "real object producer and consumer clients on real engines in one synctest bubble, joined by a scripted lossy/reordering network; differential store histories"},
     {"name": "schedsim", "path": "sim/schedsim", "serves_properties": ["C16"], "kind_free_text": "cooperative seeded scheduler releasing real goroutines one at a time at table-lock yield hooks; porcupine linearizability check"},
-    {"name": "mgmtsim", "path": "sim/mgmtsim", "serves_properties": ["C17"], "kind_free_text": "whole forwarder (management thread, internal face, forwarding threads, link services) in one synctest bubble; command histories against a command-level reference model"},
+    {"name": "mgmtsim", "path": "sim/mgmtsim", "serves_properties": ["C17", "C06", "C04"], "kind_free_text": "whole forwarder (management thread, internal face, forwarding threads, link services) in one synctest bubble; command histories against a command-level reference model"},
     {"name": "rxsim", "path": "sim/facesim/rx.go", "serves_properties": ["C04"], "kind_free_text": "hostile link (structure-aware corruption) in front of the real forwarder receive path (link service, reassembly, dispatch, forwarding threads) and the application engine"},
     {"name": "linksim", "path": "sim/facesim/link.go", "serves_properties": ["C10"], "kind_free_text": "two real link services joined by a simulated datagram link that permutes, drops and duplicates frames"},
     {"name": "streamsim", "path": "sim/facesim/stream.go", "serves_properties": ["C11"], "kind_free_text": "scripted stream socket (chunking, transient errors, EOF) under the real stream framing loops"},
